@@ -1,16 +1,26 @@
 /-
   The general single-track theorems: bracket structure `ta`, loop point, bracket structure `tb`,
-  loop-back jump — counted loops (with and without break, nested) on both sides of the loop point,
-  the loop point itself at loop depth 0.
+  terminator — counted loops (with any number of breaks, nested) and subroutine calls on both sides
+  of the loop point, the loop point itself at loop depth 0.  Stated for a stream placed at ANY
+  offset of a chunk (`pre ++ bytes <+: seq`, whole chunk below 64 KiB because the loop-back target
+  is computed modulo 2^16), then specialised to a stream on its own.
+
+  Three shapes, as `MDSDRV_Track_Writer::end_hook` produces them:
+    (F)  `ta, FINISH`                       no loop point
+    (J)  `ta, SEGNO, tb, JUMP`              loop point, loop section takes time
+    (Z)  `ta, SEGNO, tb, FINISH`            loop point, but the loop section is empty in time
 -/
 import Ctrmml.Proofs.CodecWalkLoops
+import Ctrmml.Proofs.CodecCall
+import Ctrmml.Proofs.CodecConv
 namespace Ctrmml.Codec
 open Ctrmml.Mds Ctrmml.Seq Ctrmml.SeqWf Tables
 
 /-- the bytes of a looping track, from the structured encodings of its two parts -/
 def trackBytes (eB : Enc) : List Nat := eB.out ++ [mds_JUMP, jumpOff eB / 256, jumpOff eB % 256]
 
-theorem track_convert (nS nM : Nat) (ta tb : List Node) (ha : linL ta = true) (hb : linL tb = true) (jarg : Nat)
+theorem track_convert (nS nM : Nat) (ta tb : List Node) (ha : linL ta = true) (hb : linL tb = true)
+    (ka : brkOkL false ta = true) (kb : brkOkL false tb = true) (jarg : Nat)
     (eA eB : Enc) (hA : encL nS nM ta {} = .ok eA) (hB : encL nS nM tb (afterSegno eA) = .ok eB)
     (hlen : (trackBytes eB).length < 65536) :
     convertTrack nS nM (flatL ta ++ [⟨mds_SEGNO, 0⟩] ++ flatL tb ++ [⟨mds_JUMP, jarg⟩]) = .ok (trackBytes eB) := by
@@ -19,94 +29,414 @@ theorem track_convert (nS nM : Nat) (ta tb : List Node) (ha : linL ta = true) (h
   have hlB : eB.out.length + 3 < 65536 := by simp [trackBytes] at hlen; omega
   have hlS : (afterSegno eA).out.length ≤ eB.out.length := pB.length_le
   have hlA : eA.out.length ≤ (afterSegno eA).out.length := (disambP_prefix eA).length_le
-  have e1 := encL_eq nS nM ta ha {} eA hA (by omega)
-  have e2 := encL_eq nS nM tb hb (afterSegno eA) eB hB (by omega)
+  have e1 := encL_eq nS nM ta false ha ka {} eA (fun h => by cases h) hA (by omega)
+  have e2 := encL_eq nS nM tb false hb kb (afterSegno eA) eB (fun h => by cases h) hB (by omega)
   simp [convertTrack, encAll_append, e1, encAll, encEv_segno, e2, encEv_jump, Except.map, trackBytes]
 
-/-- **C02, general single track**: loops with breaks on both sides of the loop point -/
+/-- shape (Z): the loop point is there but the track ends with `FINISH` -/
+theorem track_convert_z (nS nM : Nat) (ta tb : List Node) (ha : linL ta = true) (hb : linL tb = true)
+    (ka : brkOkL false ta = true) (kb : brkOkL false tb = true) (farg : Nat)
+    (eA eB : Enc) (hA : encL nS nM ta {} = .ok eA) (hB : encL nS nM tb (afterSegno eA) = .ok eB)
+    (hlen : eB.out.length + 1 < 65536) :
+    convertTrack nS nM (flatL ta ++ [⟨mds_SEGNO, 0⟩] ++ flatL tb ++ [⟨mds_FINISH, farg⟩]) = .ok (eB.out ++ [mds_FINISH]) := by
+  obtain ⟨_, hB', pB, _, _⟩ := encL_total nS nM tb hb (afterSegno eA)
+  rw [hB] at hB'; injection hB' with hB'; subst hB'
+  have hlS : (afterSegno eA).out.length ≤ eB.out.length := pB.length_le
+  have hlA : eA.out.length ≤ (afterSegno eA).out.length := (disambP_prefix eA).length_le
+  have e1 := encL_eq nS nM ta false ha ka {} eA (fun h => by cases h) hA (by omega)
+  have e2 := encL_eq nS nM tb false hb kb (afterSegno eA) eB (fun h => by cases h) hB (by omega)
+  simp [convertTrack, encAll_append, e1, encAll, encEv_segno, e2, encEv_finish, Except.map]
+
+/-- shape (F) -/
+theorem track_convert_f (nS nM : Nat) (ta : List Node) (ha : linL ta = true) (ka : brkOkL false ta = true) (farg : Nat)
+    (eA : Enc) (hA : encL nS nM ta {} = .ok eA) (hlen : eA.out.length + 1 < 65536) :
+    convertTrack nS nM (flatL ta ++ [⟨mds_FINISH, farg⟩]) = .ok (eA.out ++ [mds_FINISH]) := by
+  have e1 := encL_eq nS nM ta false ha ka {} eA (fun h => by cases h) hA (by omega)
+  simp [convertTrack, encAll_append, e1, encAll, encEv_finish, Except.map]
+
+/-- the two parts of a track, encoded by the structured encoder from nothing, decoded at offset
+`pre.length` of a chunk: the encoder states shifted by `pre`.  The first part is entered in mode `M`
+and left in mode `afterL M ta`, in which the second part is entered. -/
+theorem two_parts_at (M : Mode) (nS nM : Nat) (ta tb : List Node) (ha : linL ta = true) (hb : linL tb = true)
+    (ma : mokL M true ta = true) (mb : mokL (afterL M ta) true tb = true) :
+    ∃ eA eB, encL nS nM ta {} = .ok eA ∧ encL nS nM tb (afterSegno eA) = .ok eB ∧
+      (afterSegno eA).out <+: eB.out ∧ eB.segnoPos = (afterSegno eA).out.length % 65536 ∧
+      ∀ (pre seq : List Nat) (base mj : Nat), M.Sound seq base mj → callsOkL M seq base mj ta →
+        callsOkL (afterL M ta) seq base mj tb → pre ++ eB.out <+: seq →
+        ∃ e0S e0B : Enc, e0S.out = pre ++ (afterSegno eA).out ∧ e0B.out = pre ++ eB.out ∧
+          (∀ s : St, s.pc = pre.length → s.drum = M.dm →
+            ∃ s1, Reach seq base mj s s1 ∧ FrameX s s1 ∧ Good (afterL M ta) e0S s1 ((expL M nS nM ta).reverse ++ s.out)) ∧
+          (∀ (s : St) (O : List Tk), Good (afterL M ta) e0S s O →
+            ∃ s1, Reach seq base mj s s1 ∧ FrameX s s1 ∧
+              Good (afterL (afterL M ta) tb) e0B s1 ((expL (afterL M ta) nS nM tb).reverse ++ O)) ∧
+          (∀ s : St, s.pc = e0S.out.length → s.drum = (afterL M ta).dm → Good (afterL M ta) e0S s s.out) := by
+  obtain ⟨eA, hA, _, _, _⟩ := encL_total nS nM ta ha {}
+  obtain ⟨eB, hB, pB, _, spB⟩ := encL_total nS nM tb hb (afterSegno eA)
+  refine ⟨eA, eB, hA, hB, pB, spB, ?_⟩
+  intro pre seq base mj hS hcA hcB hp
+  obtain ⟨e0, he0⟩ : ∃ e0 : Enc, e0 = { out := pre } := ⟨_, rfl⟩
+  have hsim : SimE {} e0 := by
+    rw [he0]; exact ⟨rfl, rfl, rfl, fun hn => by simp [noteish, mds_REST, mds_TIE] at hn⟩
+  obtain ⟨e0A, h0A, parA⟩ := encL_par nS nM ta ha {} e0 eA hsim hA
+  have parD := disambP_par parA.sim
+  have hsimS : SimE (afterSegno eA) (afterSegno e0A) :=
+    ⟨rfl, rfl, rfl, fun hn => by simp [afterSegno, noteish, mds_SEGNO, mds_TIE] at hn⟩
+  obtain ⟨e0B, h0B, parB⟩ := encL_par nS nM tb hb _ (afterSegno e0A) eB hsimS hB
+  have hoA : e0A.out = pre ++ eA.out := by
+    obtain ⟨B, a, b⟩ := parA.app
+    rw [b, a, he0]; simp
+  have hoS : (afterSegno e0A).out = pre ++ (afterSegno eA).out := by
+    obtain ⟨B, a, b⟩ := parD.app
+    show (disambP e0A).out = pre ++ (disambP eA).out
+    rw [b, a, hoA, List.append_assoc]
+  have hoB : e0B.out = pre ++ eB.out := by
+    obtain ⟨B, a, b⟩ := parB.app
+    rw [b, a, hoS, List.append_assoc]
+  obtain ⟨_, h0B', p0B, _, _⟩ := encL_total nS nM tb hb (afterSegno e0A)
+  rw [h0B] at h0B'; injection h0B' with h0B'; subst h0B'
+  have hpB : e0B.out <+: seq := by rw [hoB]; exact hp
+  have hpS : (afterSegno e0A).out <+: seq := p0B.trans hpB
+  obtain ⟨x, hx, semA⟩ := encL_sim M true nS nM ta ha ma e0
+  rw [h0A] at hx; injection hx with hx; subst hx
+  obtain ⟨y, hy, semB⟩ := encL_sim (afterL M ta) true nS nM tb hb mb (afterSegno e0A)
+  rw [h0B] at hy; injection hy with hy; subst hy
+  have hS1 := afterL_sound hS ta
+  refine ⟨afterSegno e0A, e0B, hoS, hoB, ?_, ?_, ?_⟩
+  · intro s hpc hd
+    have g0 : Good M e0 s s.out := by
+      rw [he0]
+      exact ⟨fun h => absurd rfl h, fun h => absurd rfl h, hd,
+        .inl ⟨by simp [needLenB, noteish, mds_REST, mds_TIE], hpc, rfl⟩⟩
+    obtain ⟨s1, r1, f1, g1⟩ := semA seq base mj s s.out hS hcA ((disambP_prefix e0A).trans hpS) g0
+    obtain ⟨s2, r2, f2, g2⟩ := segno_good (base := base) (mj := mj) hS1 g1 hpS
+    exact ⟨s2, r1.trans r2, f1.trans f2.x, g2⟩
+  · intro s O g
+    exact semB seq base mj s O hS1 hcB hpB g
+  · intro s hpc hd
+    exact good_at_segno _ e0A s hpc hd
+
+/-- **shape (J) at an offset**: the interpreter, entered at the first byte of the stream with the
+loop-back not yet followed, plays `ta`, then `tb` `mj + 1` times with a loop mark after each of
+the first `mj`, and stops at the jump.  The loop section must end in the drum-mode state it
+starts in (`hloop`; otherwise the replay is played in the other state: D27). -/
+theorem track_j_at (M : Mode) (nS nM : Nat) (ta tb : List Node) (ha : linL ta = true) (hb : linL tb = true)
+    (ma : mokL M true ta = true) (mb : mokL (afterL M ta) true tb = true)
+    (hloop : (afterL (afterL M ta) tb).dm = (afterL M ta).dm) :
+    ∃ eA eB, encL nS nM ta {} = .ok eA ∧ encL nS nM tb (afterSegno eA) = .ok eB ∧
+      ∀ (pre seq : List Nat) (base mj : Nat) (s : St), M.Sound seq base mj → callsOkL M seq base mj ta →
+        callsOkL (afterL M ta) seq base mj tb →
+        pre ++ trackBytes eB <+: seq → (pre ++ trackBytes eB).length < 65536 →
+        s.pc = pre.length → s.drum = M.dm → s.jumps = 0 →
+        ∃ s', Reach seq base mj s s' ∧ step seq base mj s' = .error .finished ∧
+          s'.out = (expL M nS nM ta ++ repeatL mj (expL (afterL M ta) nS nM tb ++ [Tk.loopMark]) ++
+            expL (afterL M ta) nS nM tb).reverse ++ s.out := by
+  obtain ⟨eA, eB, hA, hB, pB, spB, h⟩ := two_parts_at M nS nM ta tb ha hb ma mb
+  refine ⟨eA, eB, hA, hB, ?_⟩
+  intro pre seq base mj s hS hcA hcB hp hlen hpc hd hj
+  have hpB : pre ++ eB.out <+: seq := by
+    refine List.IsPrefix.trans ?_ hp
+    simp only [trackBytes, ← List.append_assoc]
+    exact List.prefix_append _ _
+  obtain ⟨e0S, e0B, hoS, hoB, semA, semB, hSt⟩ := h pre seq base mj hS hcA hcB hpB
+  rw [afterL_of_dm hloop] at semB
+  obtain ⟨s1, r1, f1, g1⟩ := semA s hpc hd
+  have hpJ : e0B.out ++ [mds_JUMP, jumpOff eB / 256, jumpOff eB % 256] <+: seq := by
+    rw [hoB]; simpa [trackBytes, List.append_assoc] using hp
+  have hlenB : pre.length + eB.out.length + 3 < 65536 := by simp [trackBytes] at hlen; omega
+  have hlenS : (afterSegno eA).out.length ≤ eB.out.length := pB.length_le
+  have hsp : eB.segnoPos = (afterSegno eA).out.length := by rw [spB]; omega
+  have htgt : (e0B.out.length + 3 + (jumpOff eB / 256 * 256 + jumpOff eB % 256)) % 65536 = e0S.out.length := by
+    rw [hoB, hoS]
+    simp only [List.length_append, jumpOff, hsp]
+    omega
+  have hj1 : s1.jumps = 0 := by rw [f1.jumps, hj]
+  obtain ⟨s', r', hfin, ho'⟩ := jump_passes (base := base) (mj := mj) (afterL_sound hS ta) semB hSt hpJ htgt mj s1 _ g1
+    (by omega) (by omega)
+  refine ⟨s', r1.trans r', hfin, ?_⟩
+  rw [ho']; simp [List.reverse_append, List.append_assoc]
+
+/-- **shape (Z) at an offset**: entered with an empty call stack, plays `ta` then `tb` and stops
+at the terminator -/
+theorem track_z_at (M : Mode) (nS nM : Nat) (ta tb : List Node) (ha : linL ta = true) (hb : linL tb = true)
+    (ma : mokL M true ta = true) (mb : mokL (afterL M ta) true tb = true) :
+    ∃ eA eB, encL nS nM ta {} = .ok eA ∧ encL nS nM tb (afterSegno eA) = .ok eB ∧
+      ∀ (pre seq : List Nat) (base mj : Nat) (s : St), M.Sound seq base mj → callsOkL M seq base mj ta →
+        callsOkL (afterL M ta) seq base mj tb →
+        pre ++ (eB.out ++ [mds_FINISH]) <+: seq → s.pc = pre.length → s.drum = M.dm → s.calls = [] →
+        ∃ s', Reach seq base mj s s' ∧ step seq base mj s' = .error .finished ∧
+          s'.out = (expL M nS nM ta ++ expL (afterL M ta) nS nM tb).reverse ++ s.out := by
+  obtain ⟨eA, eB, hA, hB, pB, spB, h⟩ := two_parts_at M nS nM ta tb ha hb ma mb
+  refine ⟨eA, eB, hA, hB, ?_⟩
+  intro pre seq base mj s hS hcA hcB hp hpc hd hcalls
+  have hpB : pre ++ eB.out <+: seq := by
+    refine List.IsPrefix.trans ?_ hp
+    rw [← List.append_assoc]
+    exact List.prefix_append _ _
+  obtain ⟨e0S, e0B, hoS, hoB, semA, semB, hSt⟩ := h pre seq base mj hS hcA hcB hpB
+  obtain ⟨s1, r1, f1, g1⟩ := semA s hpc hd
+  obtain ⟨s2, r2, f2, g2⟩ := semB s1 _ g1
+  have hpF : e0B.out ++ [mds_FINISH] <+: seq := by rw [hoB]; simpa [List.append_assoc] using hp
+  obtain ⟨s3, r3, hfin, ho⟩ := finish_run (base := base) (mj := mj) (afterL_sound (afterL_sound hS ta) tb) g2
+    (by rw [f2.calls, f1.calls, hcalls]) hpF
+  refine ⟨s3, r1.trans (r2.trans r3), hfin, ?_⟩
+  rw [ho]; simp [List.reverse_append, List.append_assoc]
+
+/-- **shape (F) at an offset** -/
+theorem track_f_at (M : Mode) (nS nM : Nat) (ta : List Node) (ha : linL ta = true) (ma : mokL M true ta = true) :
+    ∃ eA, encL nS nM ta {} = .ok eA ∧
+      ∀ (pre seq : List Nat) (base mj : Nat) (s : St), M.Sound seq base mj → callsOkL M seq base mj ta →
+        pre ++ (eA.out ++ [mds_FINISH]) <+: seq → s.pc = pre.length → s.drum = M.dm → s.calls = [] →
+        ∃ s', Reach seq base mj s s' ∧ step seq base mj s' = .error .finished ∧
+          s'.out = (expL M nS nM ta).reverse ++ s.out := by
+  obtain ⟨eA, hA, h⟩ := stream_top_at M true nS nM ta ha ma
+  refine ⟨eA, hA, ?_⟩
+  intro pre seq base mj s hS hcA hp hpc hd hcalls
+  have hp' : pre ++ eA.out ++ mds_FINISH :: [] <+: seq := by simpa [List.append_assoc] using hp
+  obtain ⟨s1, r1, f1, _, hpc1, ho⟩ := h pre seq base mj s hS hcA (b := mds_FINISH) (by decide) hp' hpc hd
+  have hfin : seq[s1.pc]? = some mds_FINISH := by
+    rw [hpc1]
+    have : (pre ++ eA.out) ++ mds_FINISH :: [] <+: seq := hp'
+    simpa using rd_at this
+  exact ⟨s1, r1, step_finish hfin (f1.calls.trans hcalls), ho⟩
+
+/-- **C02, general single track** (on its own, no calls): loops with breaks on both sides of the
+loop point -/
 theorem codec_roundtrip_track (nS nM : Nat) (ta tb : List Node) (ha : linL ta = true) (hb : linL tb = true)
+    (ka : brkOkL false ta = true) (kb : brkOkL false tb = true) (na : noCallL ta = true) (nb : noCallL tb = true)
+    (ma : mokL Mode.plain false ta = true) (mb : mokL Mode.plain false tb = true)
     (jarg : Nat) :
     ∃ eA eB, encL nS nM ta {} = .ok eA ∧ encL nS nM tb (afterSegno eA) = .ok eB ∧
       ((trackBytes eB).length < 65536 →
         convertTrack nS nM (flatL ta ++ [⟨mds_SEGNO, 0⟩] ++ flatL tb ++ [⟨mds_JUMP, jarg⟩]) = .ok (trackBytes eB) ∧
         ∀ (base mj : Nat) (ln lr : Option Nat),
           Plays (trackBytes eB) base mj ln lr
-            (expL nS nM ta ++ repeatL mj (expL nS nM tb ++ [Tk.loopMark]) ++ expL nS nM tb)) := by
-  obtain ⟨eA, hA, semA⟩ := encL_sim nS nM ta ha {}
-  obtain ⟨eB, hB, semB⟩ := encL_sim nS nM tb hb (afterSegno eA)
+            (expL Mode.plain nS nM ta ++ repeatL mj (expL Mode.plain nS nM tb ++ [Tk.loopMark]) ++
+              expL Mode.plain nS nM tb)) := by
+  have e1 : afterL Mode.plain ta = Mode.plain := afterL_of_mok ma
+  have ma' : mokL Mode.plain true ta = true := mokL_top ma
+  have mb' : mokL (afterL Mode.plain ta) true tb = true := by rw [e1]; exact mokL_top mb
+  obtain ⟨eA, eB, hA, hB, h⟩ := track_j_at Mode.plain nS nM ta tb ha hb ma' mb'
+    (by rw [e1, afterL_of_mok mb])
+  rw [e1] at h
+  refine ⟨eA, eB, hA, hB, fun hlen => ⟨track_convert nS nM ta tb ha hb ka kb jarg eA eB hA hB hlen, ?_⟩⟩
+  intro base mj ln lr
+  obtain ⟨s', r', hfin, ho⟩ := h [] (trackBytes eB) base mj { pc := 0, lastNote := ln, lastRest := lr }
+    (Mode.plain_sound _ _ _)
+    (noCallL_callsOkL _ _ _ _ ta na) (noCallL_callsOkL _ _ _ _ tb nb) (by simp) (by simpa using hlen) rfl rfl rfl
+  exact ⟨s', r', hfin, by simpa using ho⟩
+
+/-! ### the walker on the three shapes, at an offset -/
+
+/-- walker counterpart of `two_parts_at`: walking from the first byte of the stream at loop depth 0
+reaches the end of `tb`'s bytes at depth 0, having recorded the loop point as a boundary -/
+theorem walk_two_parts_at (nS nM : Nat) (ta tb : List Node) (ha : linL ta = true) (hb : linL tb = true)
+    (eA eB : Enc) (hA : encL nS nM ta {} = .ok eA) (hB : encL nS nM tb (afterSegno eA) = .ok eB)
+    (pre seq : List Nat) (start : Nat) (hp : pre ++ eB.out <+: seq) {b : Nat} {r : List Nat} (hbge : b ≥ 0x80)
+    (hpb : pre ++ eB.out ++ b :: r <+: seq) :
+    ∃ w4 : W, WR seq start { pc := pre.length } w4 ∧ w4.pc = pre.length + eB.out.length ∧ w4.depth = 0 ∧
+      (w4.pc = pre.length + (afterSegno eA).out.length ∨ pre.length + (afterSegno eA).out.length ∈ w4.bounds0) := by
+  obtain ⟨e0, he0⟩ : ∃ e0 : Enc, e0 = { out := pre } := ⟨_, rfl⟩
+  have hsim : SimE {} e0 := by
+    rw [he0]; exact ⟨rfl, rfl, rfl, fun hn => by simp [noteish, mds_REST, mds_TIE] at hn⟩
+  obtain ⟨e0A, h0A, parA⟩ := encL_par nS nM ta ha {} e0 eA hsim hA
+  have parD := disambP_par parA.sim
+  have hsimS : SimE (afterSegno eA) (afterSegno e0A) :=
+    ⟨rfl, rfl, rfl, fun hn => by simp [afterSegno, noteish, mds_SEGNO, mds_TIE] at hn⟩
+  obtain ⟨e0B, h0B, parB⟩ := encL_par nS nM tb hb _ (afterSegno e0A) eB hsimS hB
+  have hoA : e0A.out = pre ++ eA.out := by
+    obtain ⟨B, a, b⟩ := parA.app
+    rw [b, a, he0]; simp
+  have hoS : (afterSegno e0A).out = pre ++ (afterSegno eA).out := by
+    obtain ⟨B, a, b⟩ := parD.app
+    show (disambP e0A).out = pre ++ (disambP eA).out
+    rw [b, a, hoA, List.append_assoc]
+  have hoB : e0B.out = pre ++ eB.out := by
+    obtain ⟨B, a, b⟩ := parB.app
+    rw [b, a, hoS, List.append_assoc]
+  obtain ⟨_, h0B', p0B, _, _⟩ := encL_total nS nM tb hb (afterSegno e0A)
+  rw [h0B] at h0B'; injection h0B' with h0B'; subst h0B'
+  have hpB : e0B.out <+: seq := by rw [hoB]; exact hp
+  have hpS : (afterSegno e0A).out <+: seq := p0B.trans hpB
+  have g0 : WGood e0 ({ pc := pre.length } : W) := by
+    rw [he0]; exact .inl ⟨by simp [needLenB, noteish, mds_REST, mds_TIE], rfl⟩
+  obtain ⟨w1, r1, g1, f1⟩ := wencL nS nM ta ha e0 e0A h0A seq start { pc := pre.length }
+    ((disambP_prefix e0A).trans hpS) g0
+  obtain ⟨w2, l2, hpc2, _⟩ := wdisamb g1 hpS
+  have g2 : WGood (afterSegno e0A) w2 :=
+    .inl ⟨by simp [afterSegno, needLenB, noteish, mds_SEGNO, mds_TIE], hpc2⟩
+  obtain ⟨w3, r3, g3, f3⟩ := wencL nS nM tb hb _ e0B h0B seq start w2 hpB g2
+  have hpb' : e0B.out ++ b :: r <+: seq := by rw [hoB]; exact hpb
+  obtain ⟨w4, l4, hpc4⟩ := wresolve g3 hbge hpb'
+  have hd2 : w2.depth = 0 := l2.frame.depth.trans f1.depth
+  have f24 := f3.trans l4.frame
+  have hd4 : w4.depth = 0 := f24.depth.trans hd2
+  refine ⟨w4, (r1.trans (WR.ofLin (start := start) l2)).trans (r3.trans (WR.ofLin (start := start) l4)),
+    by rw [hpc4, hoB]; simp, hd4, ?_⟩
+  have hS : w2.pc = pre.length + (afterSegno eA).out.length := by
+    rw [hpc2, show (disambP e0A).out = (afterSegno e0A).out from rfl, hoS]; simp
+  rw [← hS]
+  exact f24.here hd2
+
+/-- **shape (J), walker at an offset** -/
+theorem walk_j_at (nS nM : Nat) (ta tb : List Node) (ha : linL ta = true) (hb : linL tb = true)
+    (eA eB : Enc) (hA : encL nS nM ta {} = .ok eA) (hB : encL nS nM tb (afterSegno eA) = .ok eB)
+    (pre seq : List Nat) (hp : pre ++ trackBytes eB <+: seq) (hlen : (pre ++ trackBytes eB).length < 65536) :
+    ∀ fuel, fuel ≥ (trackBytes eB).length →
+      walk seq pre.length fuel { pc := pre.length } = .ok (pre.length + (trackBytes eB).length) := by
+  intro fuel hf
   obtain ⟨_, hB', pB, _, spB⟩ := encL_total nS nM tb hb (afterSegno eA)
   rw [hB] at hB'; injection hB' with hB'; subst hB'
-  refine ⟨eA, eB, hA, hB, fun hlen => ⟨track_convert nS nM ta tb ha hb jarg eA eB hA hB hlen, ?_⟩⟩
-  intro base mj ln lr
-  have hpJ : eB.out ++ [mds_JUMP, jumpOff eB / 256, jumpOff eB % 256] <+: trackBytes eB := List.prefix_refl _
-  have hpB : eB.out <+: trackBytes eB := List.prefix_append _ _
-  have hpS : (afterSegno eA).out <+: trackBytes eB := pB.trans hpB
-  obtain ⟨s1, r1, f1, g1⟩ := semA (trackBytes eB) base mj _ [] ((disambP_prefix eA).trans hpS) (good_init ln lr)
-  obtain ⟨s2, r2, f2, g2⟩ := segno_good (base := base) (mj := mj) g1 hpS
-  have hlenB : eB.out.length + 3 < 65536 := by simp [trackBytes] at hlen; omega
+  have hpJ : pre ++ eB.out ++ mds_JUMP :: [jumpOff eB / 256, jumpOff eB % 256] <+: seq := by
+    simpa [trackBytes, List.append_assoc] using hp
+  have hpB : pre ++ eB.out <+: seq := (List.prefix_append _ _).trans hpJ
+  obtain ⟨w4, r4, hpc4, hd4, hb4⟩ := walk_two_parts_at nS nM ta tb ha hb eA eB hA hB pre seq pre.length hpB
+    (b := mds_JUMP) (by decide) hpJ
+  obtain ⟨k, hk, ek⟩ := r4
+  have hlenB : pre.length + eB.out.length + 3 < 65536 := by simp [trackBytes] at hlen; omega
   have hlenS : (afterSegno eA).out.length ≤ eB.out.length := pB.length_le
   have hsp : eB.segnoPos = (afterSegno eA).out.length := by
     rw [spB]; show (disambP eA).out.length % 65536 = (disambP eA).out.length
     have : (disambP eA).out.length = (afterSegno eA).out.length := rfl
     omega
-  have htgt : (eB.out.length + 3 + (jumpOff eB / 256 * 256 + jumpOff eB % 256)) % 65536 =
-      (afterSegno eA).out.length := by
+  have htgt : (w4.pc + 3 + (jumpOff eB / 256 * 256 + jumpOff eB % 256)) % 65536 =
+      pre.length + (afterSegno eA).out.length := by
+    rw [hpc4]
+    clear hk ek hf hb4
     simp only [jumpOff, hsp]; omega
-  have hj2 : s2.jumps = 0 := by rw [f2.jumps, f1.jumps]
-  obtain ⟨s', r', hfin, ho'⟩ := jump_passes (base := base) (mj := mj)
-    (fun s O g => semB (trackBytes eB) base mj s O hpB g)
-    (fun s hpc hd => good_at_segno eA s hpc hd) hpJ htgt mj s2 _ g2 (by omega) (by omega)
-  refine ⟨s', r1.trans (r2.trans r'), hfin, ?_⟩
-  rw [ho']; simp [List.reverse_append, List.append_assoc]
+  have hpJ' : (pre ++ eB.out) ++ mds_JUMP :: [jumpOff eB / 256, jumpOff eB % 256] <+: seq := hpJ
+  have hl4 : w4.pc = (pre ++ eB.out).length := by rw [hpc4]; simp
+  have r0 : seq[w4.pc]? = some mds_JUMP := by rw [hl4]; exact rd_at hpJ'
+  have r1' : seq[w4.pc + 1]? = some (jumpOff eB / 256) := by rw [hl4]; exact rd_at1 hpJ'
+  have r2' : seq[w4.pc + 1 + 1]? = some (jumpOff eB % 256) := by rw [hl4]; exact rd_at2 hpJ'
+  have hbl : (trackBytes eB).length = eB.out.length + 3 := by simp [trackBytes]
+  have hsl : pre.length + eB.out.length + 3 ≤ seq.length := by
+    have := hp.length_le; simp [trackBytes] at this; omega
+  simp only at hk
+  obtain ⟨f, rfl⟩ : ∃ f, fuel = f + 1 + k := ⟨fuel - 1 - k, by omega⟩
+  rw [ek, walk_jump f r0 r1' r2' (by omega) hd4 (by rw [htgt]; omega) ?_, hpc4, hbl]
+  · rw [Nat.add_assoc]
+  · rw [htgt]
+    rcases hb4 with h | h
+    · exact .inl h.symm
+    · exact .inr h
 
-/-- **C03, general single track**: the walker accepts -/
+/-- **shape (Z), walker at an offset** -/
+theorem walk_z_at (nS nM : Nat) (ta tb : List Node) (ha : linL ta = true) (hb : linL tb = true)
+    (eA eB : Enc) (hA : encL nS nM ta {} = .ok eA) (hB : encL nS nM tb (afterSegno eA) = .ok eB)
+    (pre seq : List Nat) (start : Nat) (hp : pre ++ (eB.out ++ [mds_FINISH]) <+: seq) :
+    ∀ fuel, fuel ≥ eB.out.length + 1 →
+      walk seq start fuel { pc := pre.length } = .ok (pre.length + eB.out.length + 1) := by
+  intro fuel hf
+  have hpF : pre ++ eB.out ++ mds_FINISH :: [] <+: seq := by simpa [List.append_assoc] using hp
+  have hpB : pre ++ eB.out <+: seq := (List.prefix_append _ _).trans hpF
+  obtain ⟨w4, r4, hpc4, hd4, _⟩ := walk_two_parts_at nS nM ta tb ha hb eA eB hA hB pre seq start hpB
+    (b := mds_FINISH) (by decide) hpF
+  obtain ⟨k, hk, ek⟩ := r4
+  have hl4 : w4.pc = (pre ++ eB.out).length := by rw [hpc4]; simp
+  have r0 : seq[w4.pc]? = some mds_FINISH := by rw [hl4]; exact rd_at hpF
+  have hsl : pre.length + eB.out.length + 1 ≤ seq.length := by
+    have := hp.length_le; simp at this; omega
+  simp only at hk
+  obtain ⟨f, rfl⟩ : ∃ f, fuel = f + 1 + k := ⟨fuel - 1 - k, by omega⟩
+  rw [ek, walk_finish f r0 (by omega) hd4, hpc4]
+
+/-- **shape (F) (and every subroutine stream), walker at an offset** -/
+theorem walk_f_at (nS nM : Nat) (ta : List Node) (ha : linL ta = true)
+    (eA : Enc) (hA : encL nS nM ta {} = .ok eA)
+    (pre seq : List Nat) (start : Nat) (hp : pre ++ (eA.out ++ [mds_FINISH]) <+: seq) :
+    ∀ fuel, fuel ≥ eA.out.length + 1 →
+      walk seq start fuel { pc := pre.length } = .ok (pre.length + eA.out.length + 1) := by
+  intro fuel hf
+  obtain ⟨e0, he0⟩ : ∃ e0 : Enc, e0 = { out := pre } := ⟨_, rfl⟩
+  have hsim : SimE {} e0 := by
+    rw [he0]; exact ⟨rfl, rfl, rfl, fun hn => by simp [noteish, mds_REST, mds_TIE] at hn⟩
+  obtain ⟨e0A, h0A, parA⟩ := encL_par nS nM ta ha {} e0 eA hsim hA
+  have hoA : e0A.out = pre ++ eA.out := by
+    obtain ⟨B, a, b⟩ := parA.app
+    rw [b, a, he0]; simp
+  have hpF : e0A.out ++ [mds_FINISH] <+: seq := by rw [hoA]; simpa [List.append_assoc] using hp
+  have g0 : WGood e0 ({ pc := pre.length } : W) := by
+    rw [he0]; exact .inl ⟨by simp [needLenB, noteish, mds_REST, mds_TIE], rfl⟩
+  obtain ⟨w1, r1, g1, f1⟩ := wencL nS nM ta ha e0 e0A h0A seq start { pc := pre.length }
+    ((List.prefix_append _ _).trans hpF) g0
+  obtain ⟨w2, l2, hpc2⟩ := wresolve g1 (b := mds_FINISH) (by decide) hpF
+  obtain ⟨k, hk, ek⟩ := r1.trans (WR.ofLin (start := start) l2)
+  have hd : w2.depth = 0 := l2.frame.depth.trans f1.depth
+  have r0 : seq[w2.pc]? = some mds_FINISH := by rw [hpc2]; exact rd_at hpF
+  have hsl : pre.length + eA.out.length + 1 ≤ seq.length := by
+    have := hp.length_le; simp at this; omega
+  have hpc2' : w2.pc = pre.length + eA.out.length := by rw [hpc2, hoA]; simp
+  simp only at hk
+  obtain ⟨f, rfl⟩ : ∃ f, fuel = f + 1 + k := ⟨fuel - 1 - k, by omega⟩
+  rw [ek, walk_finish f r0 (by omega) hd, hpc2']
+
+/-- **C03, general single track** (on its own): the walker accepts -/
 theorem walk_accepts_track (nS nM : Nat) (ta tb : List Node) (ha : linL ta = true) (hb : linL tb = true)
-    (jarg : Nat) :
+    (ka : brkOkL false ta = true) (kb : brkOkL false tb = true) (jarg : Nat) :
     ∃ eA eB, encL nS nM ta {} = .ok eA ∧ encL nS nM tb (afterSegno eA) = .ok eB ∧
       ((trackBytes eB).length < 65536 →
         convertTrack nS nM (flatL ta ++ [⟨mds_SEGNO, 0⟩] ++ flatL tb ++ [⟨mds_JUMP, jarg⟩]) = .ok (trackBytes eB) ∧
         ∀ fuel, fuel ≥ (trackBytes eB).length →
           walk (trackBytes eB) 0 fuel { pc := 0 } = .ok (trackBytes eB).length) := by
   obtain ⟨eA, hA, _, _, _⟩ := encL_total nS nM ta ha {}
-  obtain ⟨eB, hB, pB, _, spB⟩ := encL_total nS nM tb hb (afterSegno eA)
-  refine ⟨eA, eB, hA, hB, fun hlen => ⟨track_convert nS nM ta tb ha hb jarg eA eB hA hB hlen, ?_⟩⟩
+  obtain ⟨eB, hB, _, _, _⟩ := encL_total nS nM tb hb (afterSegno eA)
+  refine ⟨eA, eB, hA, hB, fun hlen => ⟨track_convert nS nM ta tb ha hb ka kb jarg eA eB hA hB hlen, ?_⟩⟩
   intro fuel hf
-  have hpJ : eB.out ++ [mds_JUMP, jumpOff eB / 256, jumpOff eB % 256] <+: trackBytes eB := List.prefix_refl _
-  have hpB : eB.out <+: trackBytes eB := List.prefix_append _ _
-  have hpS : (afterSegno eA).out <+: trackBytes eB := pB.trans hpB
-  obtain ⟨w1, r1, g1, f1⟩ := wencL nS nM ta ha {} eA hA (trackBytes eB) 0 { pc := 0 }
-    ((disambP_prefix eA).trans hpS) wgood_init
-  obtain ⟨w2, l2, hpc2, _⟩ := wdisamb g1 hpS
-  have g2 : WGood (afterSegno eA) w2 :=
-    .inl ⟨by simp [afterSegno, needLenB, noteish, mds_SEGNO, mds_TIE], hpc2⟩
-  obtain ⟨w3, r3, g3, f3⟩ := wencL nS nM tb hb _ eB hB (trackBytes eB) 0 w2 hpB g2
-  obtain ⟨w4, l4, hpc4⟩ := wresolve g3 (b := mds_JUMP) (by decide) hpJ
-  have hd2 : w2.depth = 0 := l2.frame.depth.trans f1.depth
-  have f24 := f3.trans l4.frame
-  have hd4 : w4.depth = 0 := f24.depth.trans hd2
-  obtain ⟨k, hk, ek⟩ := (r1.trans (WR.ofLin (start := 0) l2)).trans (r3.trans (WR.ofLin (start := 0) l4))
-  have hlenB : eB.out.length + 3 < 65536 := by simp [trackBytes] at hlen; omega
-  have hlenS : (afterSegno eA).out.length ≤ eB.out.length := pB.length_le
-  have hsp : eB.segnoPos = (afterSegno eA).out.length := by
-    rw [spB]; show (disambP eA).out.length % 65536 = (disambP eA).out.length
-    have : (disambP eA).out.length = (afterSegno eA).out.length := rfl
-    omega
-  have htgt0 : (eB.out.length + 3 + (jumpOff eB / 256 * 256 + jumpOff eB % 256)) % 65536 =
-      (afterSegno eA).out.length := by
-    clear hk ek hf r1 l2 r3 l4 g1 g2 g3 f24 f1 f3
-    simp only [jumpOff, hsp]; omega
-  have htgt : (w4.pc + 3 + (jumpOff eB / 256 * 256 + jumpOff eB % 256)) % 65536 = w2.pc := by
-    rw [hpc4, hpc2]; exact htgt0
-  have r0 : (trackBytes eB)[w4.pc]? = some mds_JUMP := by rw [hpc4]; exact rd_at hpJ
-  have r1' : (trackBytes eB)[w4.pc + 1]? = some (jumpOff eB / 256) := by rw [hpc4]; exact rd_at1 hpJ
-  have r2' : (trackBytes eB)[w4.pc + 1 + 1]? = some (jumpOff eB % 256) := by rw [hpc4]; exact rd_at2 hpJ
-  have hbl : (trackBytes eB).length = eB.out.length + 3 := by simp [trackBytes]
-  simp only at hk
-  obtain ⟨f, rfl⟩ : ∃ f, fuel = f + 1 + k := ⟨fuel - 1 - k, by omega⟩
-  rw [ek, walk_jump f r0 r1' r2' (by omega) hd4 (Nat.zero_le _) ?_, hpc4, hbl]
-  rw [htgt]
-  rcases f24.here hd2 with h | h
-  · exact .inl h.symm
-  · exact .inr h
+  have := walk_j_at nS nM ta tb ha hb eA eB hA hB [] (trackBytes eB) (by simp) (by simpa using hlen) fuel hf
+  simpa using this
+
+/-! ### the shapes from the real side: what `convert_track` emitted IS the structured encoding -/
+
+theorem afterSegno_len (e : Enc) : e.out.length ≤ (afterSegno e).out.length := (disambP_prefix e).length_le
+
+/-- **shape (J) from the real side** -/
+theorem shape_j_conv (nS nM : Nat) (ta tb : List Node) (ha : linL ta = true) (hb : linL tb = true)
+    (ka : brkOkL false ta = true) (kb : brkOkL false tb = true) (jarg : Nat) (bytes : List Nat)
+    (h : convertTrack nS nM (flatL ta ++ [⟨mds_SEGNO, 0⟩] ++ flatL tb ++ [⟨mds_JUMP, jarg⟩]) = .ok bytes)
+    (hlen : bytes.length < 65536) :
+    ∃ eA eB, encL nS nM ta {} = .ok eA ∧ encL nS nM tb (afterSegno eA) = .ok eB ∧ bytes = trackBytes eB := by
+  obtain ⟨e', h1, rfl⟩ := convertTrack_ok h
+  obtain ⟨e3, h2, h3⟩ := encAll_append_ok h1
+  obtain ⟨e2, h4, h5⟩ := encAll_append_ok h2
+  obtain ⟨e1, h6, h7⟩ := encAll_append_ok h4
+  have h8 := encAll_single_ok h7
+  rw [encEv_segno] at h8
+  simp only [Except.ok.injEq] at h8
+  subst h8
+  have h9 := encAll_single_ok h3
+  rw [encEv_jump] at h9
+  simp only [Except.ok.injEq] at h9
+  subst h9
+  simp only [List.length_append, List.length_cons, List.length_nil] at hlen
+  have l1 := encAll_flatL_len nS nM tb hb _ _ h5
+  have l2 := afterSegno_len e1
+  have hA := encL_conv nS nM ta false ha ka {} e1 (fun h => by cases h) h6 (by omega)
+  have hB := encL_conv nS nM tb false hb kb (afterSegno e1) e3 (fun h => by cases h) h5 (by omega)
+  exact ⟨e1, e3, hA, hB, rfl⟩
+
+/-- **shape (Z) from the real side** -/
+theorem shape_z_conv (nS nM : Nat) (ta tb : List Node) (ha : linL ta = true) (hb : linL tb = true)
+    (ka : brkOkL false ta = true) (kb : brkOkL false tb = true) (farg : Nat) (bytes : List Nat)
+    (h : convertTrack nS nM (flatL ta ++ [⟨mds_SEGNO, 0⟩] ++ flatL tb ++ [⟨mds_FINISH, farg⟩]) = .ok bytes)
+    (hlen : bytes.length < 65536) :
+    ∃ eA eB, encL nS nM ta {} = .ok eA ∧ encL nS nM tb (afterSegno eA) = .ok eB ∧ bytes = eB.out ++ [mds_FINISH] := by
+  obtain ⟨e', h1, rfl⟩ := convertTrack_ok h
+  obtain ⟨e3, h2, h3⟩ := encAll_append_ok h1
+  obtain ⟨e2, h4, h5⟩ := encAll_append_ok h2
+  obtain ⟨e1, h6, h7⟩ := encAll_append_ok h4
+  have h8 := encAll_single_ok h7
+  rw [encEv_segno] at h8
+  simp only [Except.ok.injEq] at h8
+  subst h8
+  have h9 := encAll_single_ok h3
+  rw [encEv_finish] at h9
+  simp only [Except.ok.injEq] at h9
+  subst h9
+  simp only [List.length_append, List.length_cons, List.length_nil] at hlen
+  have l1 := encAll_flatL_len nS nM tb hb _ _ h5
+  have l2 := afterSegno_len e1
+  have hA := encL_conv nS nM ta false ha ka {} e1 (fun h => by cases h) h6 (by omega)
+  have hB := encL_conv nS nM tb false hb kb (afterSegno e1) e3 (fun h => by cases h) h5 (by omega)
+  exact ⟨e1, e3, hA, hB, rfl⟩
 
 end Ctrmml.Codec
